@@ -61,6 +61,10 @@ def gen_examples(rng, exotic=None):
         ex = (list(ex) if rng.random() < 0.3 else []) + [stem + tail * k for k in rng.sample(range(0, 7), rng.randint(2, 4))]
         if rng.random() < 0.5:
             ex += [rng.choice(['cd', 'ef', 'gh']) + d for d in ('', '12', '1234')]
+    if rng.random() < 0.04:
+        # strings that differ only behind a NUL character (some containers compare strings up to the first NUL)
+        ex = (list(ex) if rng.random() < 0.5 else []) + rng.choice([['id\x00a1', 'id\x00b2', 'id\x00c3'], ['', '\x00-17', '\x00-18'],
+                                                                     ['ab\x00', 'ab\x00x', 'ab']])
     if rng.random() < 0.07:
         # short words over a-f, words with later letters, and digit strings of the same lengths: adding one kind to the
         # working sample can re-class a fragment (hex digits) so that another kind falls out again
